@@ -334,8 +334,15 @@ func (c *ctx) genXs(n int) ([]float64, string) {
 	case 5:
 		// positive values over the whole double range: "any finite data". Only the
 		// statistics that involve no squares are queried on these (see query).
+		top := 300.0
+		if g.Chance(1, 4) {
+			top = 308.2 // up to ~1.6e308: sums of two or more such values exceed the double range
+		}
 		for i := range xs {
-			xs[i] = math.Pow(10, g.Uniform(-300, 300))
+			xs[i] = math.Pow(10, g.Uniform(-300, top))
+			if math.IsInf(xs[i], 0) {
+				xs[i] = math.MaxFloat64
+			}
 		}
 		c.probe("wide_magnitude_data")
 	}
@@ -364,6 +371,16 @@ func (c *ctx) create() {
 	xs, fam := c.genXs(n)
 	o := &obj{s: &stats.Sample{Xs: xs}, wide: fam == "wide-positive"}
 	o.wkind = g.Pick(3, 3, 2)
+	if o.wide {
+		for _, x := range xs {
+			if x > 1e300 {
+				// values at the very top of the range stay unweighted: (x-m)*w in the
+				// incremental weighted mean overflows there (an overflow corner of the
+				// formula, like extreme weights with wide values)
+				o.wkind = 0
+			}
+		}
+	}
 	if o.wkind == 1 {
 		ws := make([]float64, n)
 		tot := 0.0
@@ -654,10 +671,20 @@ func (c *ctx) grow(k int) {
 	default:
 		v = c.g.Uniform(0.001, 1000)
 	}
-	o.tailXs, o.tailWs = nil, nil // the caller's own append may use its spare capacity
-	o.s.Xs = append(o.s.Xs[:len(o.s.Xs):len(o.s.Xs)], v)
+	if o.tailXs != nil || o.tailWs != nil {
+		// the harness itself put sentinel-filled spare capacity behind these slices:
+		// step out of it before appending (the sentinel check ends here)
+		o.tailXs, o.tailWs = nil, nil
+		o.s.Xs = o.s.Xs[:len(o.s.Xs):len(o.s.Xs)]
+		if o.s.Weights != nil {
+			o.s.Weights = o.s.Weights[:len(o.s.Weights):len(o.s.Weights)]
+		}
+	}
+	// otherwise a plain append, exactly as a caller would write it: if the library
+	// handed out Xs with spare capacity that overlaps other live data, this is
+	// where it shows
+	o.s.Xs = append(o.s.Xs, v)
 	if o.s.Weights != nil {
-		o.s.Weights = o.s.Weights[:len(o.s.Weights):len(o.s.Weights)]
 		w := c.g.Uniform(0.01, 10)
 		if o.wkind == 1 {
 			w = float64(c.g.Range(1, 4))
@@ -763,6 +790,15 @@ func (c *ctx) expand(k int) {
 // ---- queries ----
 
 func (c *ctx) cmpAbs(stat, sig string, k int, got float64, want *big.Float, tol float64) {
+	if wf := refmodel.F(want); math.IsInf(wf, 0) {
+		// the exact value lies beyond the double range: its correctly rounded
+		// double is an infinity of that sign
+		c.probe("exact_value_beyond_double_range")
+		if got != wf {
+			c.fail(stat, statOp(stat), sig+"/overflow", "obj%d [%s] n=%d: %s=%v, the exact value exceeds the double range and rounds to %v", k, sig, len(c.pool[k].s.Xs), stat, got, wf)
+		}
+		return
+	}
 	err := refmodel.AbsErr(got, want)
 	if c.opt.Counting {
 		c.p.St.Ratio(err/tol, fmt.Sprintf("%s [%s]", stat, sig))
@@ -928,7 +964,12 @@ func (c *ctx) vecEv() {
 	c.op(names[which])
 	switch which {
 	case 0:
-		xs, _ := c.genXs(g.Range(0, 100))
+		nsum := g.Range(0, 100)
+		if g.Chance(1, 120) {
+			nsum = 262144 + g.Range(0, 70) // beyond 2^18: the far end of a very long input must count too
+			c.probe("vec_sum_of_2^18_elements")
+		}
+		xs, _ := c.genXs(nsum)
 		var got float64
 		if !c.try("vec.Sum", "", func() { got = vec.Sum(xs) }) {
 			return
@@ -953,6 +994,11 @@ func (c *ctx) vecEv() {
 		}
 		if g.Chance(1, 10) {
 			hi = lo // a degenerate range: every value is lo
+		}
+		if which == 2 && g.Chance(1, 12) {
+			// exponents far outside the double range: base^x is +Inf or 0 there
+			ex := []float64{1e3, -1e3, 1e19, -1e19, 400, -400, 308, -330}
+			lo, hi = ex[g.Intn(len(ex))], ex[g.Intn(len(ex))]
 		}
 		var lin []float64
 		if !c.try("vec.Linspace", "", func() { lin = vec.Linspace(lo, hi, num) }) {
@@ -990,6 +1036,19 @@ func (c *ctx) vecEv() {
 			lnb := refmodel.Ln(refmodel.BF(base))
 			for i, v := range lg {
 				e := new(big.Float).SetPrec(refmodel.Prec).Mul(refmodel.BF(lin[i]), lnb)
+				if ef := refmodel.F(e); ef > 709.8 || ef < -745.2 || math.IsNaN(lin[i]) || math.IsInf(lin[i], 0) {
+					// outside the double range (or an exponent that is itself not finite,
+					// e.g. the middle of Linspace(-1e19, 1e19, ...) is fine but inf-inf is not)
+					if ef > 709.8 && !math.IsInf(v, 1) && !math.IsNaN(lin[i]) {
+						c.fail("vec", "vec.Logspace", "overflow", "Logspace(%v,%v,%d,%v)[%d]=%v, base^%v overflows to +Inf", lo, hi, num, base, i, v, lin[i])
+						return
+					}
+					if ef < -745.2 && v != 0 && !math.IsNaN(lin[i]) {
+						c.fail("vec", "vec.Logspace", "underflow", "Logspace(%v,%v,%d,%v)[%d]=%v, base^%v underflows to 0", lo, hi, num, base, i, v, lin[i])
+						return
+					}
+					continue
+				}
 				want := refmodel.F(refmodel.Exp(e))
 				if math.Abs(v-want) > 8*refmodel.Eps*(1+math.Abs(refmodel.F(e)))*want {
 					c.fail("vec", "vec.Logspace", "value", "Logspace(%v,%v,%d,%v)[%d]=%v, base^Linspace is %v", lo, hi, num, base, i, v, want)
@@ -1098,7 +1157,7 @@ func (p *Prop) Run(t *simhook.Tape, opt simkit.RunOpt) *simkit.RunResult {
 	}
 	body := func() {
 		c.create()
-		for e := 0; e < nev && c.viol == nil; e++ {
+		for e := 0; e < nev && c.viol == nil && !simhook.OverBudget(); e++ {
 			k := g.Intn(len(c.pool))
 			switch g.Pick(2, 3, 3, 3, 1, 2, 1, 12, 2, 2) {
 			case 9:
@@ -1126,7 +1185,10 @@ func (p *Prop) Run(t *simhook.Tape, opt simkit.RunOpt) *simkit.RunResult {
 	}
 	res, abort := simkit.RunSolo(t, 8000000, 1000000, true, body)
 	rr := &simkit.RunResult{Hash: uint64(c.hash), Nontrivial: c.nontriv, Steps: res.Steps, History: c.hist, Policy: "seq"}
-	if abort != nil && c.viol == nil {
+	if abort != nil && !simkit.AbortIsVerdict(abort) {
+		rr.BudgetHit = true
+	}
+	if simkit.AbortIsVerdict(abort) && c.viol == nil {
 		c.viol = &simkit.Violation{Property: "C09", Oracle: "C09/no-progress", Op: "run", Seq: res.Steps, Message: abort.Reason + abort.Where()}
 		rr.BudgetHit = true
 	}
